@@ -9,3 +9,6 @@ func setLockHook(f func(site string)) bool {
 	vsync.LockHook = f
 	return true
 }
+
+// haveVsync: the binary was built with the vsync overlay (channel-based mutexes visible to the schedule explorer).
+func haveVsync() bool { return true }
